@@ -70,6 +70,16 @@ def gen_cases(tier, seed):
             cases.append({"id": "e2e-%03d-%s" % (i, fam), "kind": "e2e", "cfg": c, "seed": seed, "idx": 100 + i,
                           "_threads": 2, "_weight": 4.0 if nl else 1.0, "_timeout": 1500})
             i += 1
+    # several libxc-backed kernels of different spin modes / baselines in ONE MappedXC2 (they share the potential tuple)
+    for j in range(3 if tier == "quick" else 16):
+        c = dict(family=["sl-npa", "vj-mgga", "sl-nst", "sdmx"][j % 4], mol=["H2O", "HF", "NH3", "LiH"][j % 4], basis="6-31g",
+                 level=j % 2, mode="SEP", evaluator=["rbf", "kernel"][j % 2], mix=["pure", "xmix"][(j // 2) % 2], model="xc2m",
+                 mul_base="GGA_X_PBE", order=[["c", "x"], ["x2", "x"], ["c", "x", "x2"], ["x", "c"]][j % 4])
+        if c["family"] == "vj-mgga":
+            c["plan_type"], c["interp"] = "gaussian", "onsite_direct"
+        cases.append({"id": "e2e-%03d-%s-multikernel" % (i, c["family"]), "kind": "e2e", "cfg": c, "seed": seed, "idx": 100 + i,
+                      "_threads": 2, "_weight": 4.0 if c["family"] == "vj-mgga" else 1.0, "_timeout": 1500})
+        i += 1
     nm = 24 if tier == "quick" else 240
     for j in range(nm):
         cases.append({"id": "model-%03d" % j, "kind": "model", "seed": seed, "idx": 5000 + j, "_threads": 1})
